@@ -111,10 +111,44 @@ func buildTemplates(tier string) []tmpl {
 			{Vars: []Var{vr(0, 30), vr(1, 31), vr(2, 32)}, Keys: []Key{kd(0, 35), kd(1, 36)}},
 			{Comps: []int{1, 2}}, {Comps: []int{2, 1}}},
 			nil},
-		// a variable named without a default does not give one
+		// a variable named without a default does not give one; (v nil) does
 		tmpl{"defaults/no-default-shadow", []Flavor{
 			{Vars: []Var{vr(0, 10)}, Get: []string{"v0"}},
 			{Comps: []int{0}, Vars: []Var{{N: 0, ND: true}}}},
+			nil},
+		tmpl{"defaults/no-default-first-component", []Flavor{
+			{Vars: []Var{{N: 0, ND: true}, vr(1, 11)}, Get: []string{"v0"}},
+			{Vars: []Var{vr(0, 20), vr(1, 21)}},
+			{Comps: []int{0, 1}}, {Comps: []int{1, 0}}, {Comps: []int{0, 1}, Vars: []Var{{N: 0, ND: true}, {N: 1, ND: true}}}},
+			nil},
+		tmpl{"defaults/no-default-chain3", []Flavor{
+			{Vars: []Var{vr(0, 10), vr(1, 11)}, GetAll: true},
+			{Comps: []int{0}, Vars: []Var{{N: 0, ND: true}, vr(1, 21)}},
+			{Comps: []int{1}, Vars: []Var{{N: 0, ND: true}, {N: 1, ND: true}}},
+			{Comps: []int{2}, Vars: []Var{vr(0, 40)}}},
+			[]Method{{F: 1, Kind: "before", Msg: "v0"}}},
+		tmpl{"defaults/explicit-nil", []Flavor{
+			{Vars: []Var{vr(0, 10), vr(1, 11)}, Get: []string{"v0", "v1"}},
+			{Comps: []int{0}, Vars: []Var{{N: 0, Nil: true}, {N: 1, ND: true}}},
+			{Comps: []int{1}, Vars: []Var{{N: 0, ND: true}}},
+			{Vars: []Var{{N: 0, Nil: true}}}, {Comps: []int{3, 0}}, {Comps: []int{0, 3}}},
+			nil},
+		tmpl{"defaults/no-default-anywhere", []Flavor{
+			{Vars: []Var{{N: 0, ND: true}}, Get: []string{"v0"}, Set: []string{"v0"}},
+			{Comps: []int{0}, Vars: []Var{{N: 0, ND: true}}}},
+			nil},
+		// initable variables through three levels, a component without the option in between
+		tmpl{"initable/chain3", []Flavor{
+			{Vars: []Var{vr(0, 10)}, Ini: []string{"v0"}},
+			{Comps: []int{0}, Vars: []Var{vr(1, 21)}},
+			{Comps: []int{1}, Vars: []Var{vr(2, 32)}, Ini: []string{"v2"}},
+			{Comps: []int{2}, Vars: []Var{vr(0, 40)}, Ini: []string{"v0"}}},
+			nil},
+		tmpl{"initable/siblings", []Flavor{
+			{Vars: []Var{vr(0, 10)}},
+			{Vars: []Var{vr(1, 21), vr(2, 22)}, Ini: []string{"v1"}},
+			{Comps: []int{0, 1}, Vars: []Var{vr(2, 32)}, Ini: []string{"v2"}},
+			{Comps: []int{1, 0}}},
 			nil},
 		// the bare options on flavors with components: accessors for inherited variables
 		tmpl{"bare/chain", []Flavor{
@@ -286,7 +320,6 @@ func gen(r *rand.Rand, i int, tier string) Case {
 	c.Rel = i%2 == 0
 	nf := 1 + weighted(r, []int{1, 3, 6, 7, 7})
 	varDense := r.IntN(4) == 0 // most flavors declare v0 and v1: defaults collide along chains and diamonds
-	ndMode := r.IntN(8) == 0   // minority: variables named without a default next to defaults
 	for k := 0; k < nf; k++ {
 		var f Flavor
 		if 0 < k && r.IntN(5) != 0 {
@@ -306,8 +339,11 @@ func gen(r *rand.Rand, i int, tier string) Case {
 			}
 			if r.IntN(100) < p {
 				v := Var{N: n, D: 100*(k+1) + n}
-				if ndMode && r.IntN(3) == 0 {
+				switch r.IntN(12) {
+				case 0, 1: // named without a default: the default is inherited
 					v = Var{N: n, ND: true}
+				case 2: // an explicit nil default overrides
+					v = Var{N: n, Nil: true}
 				}
 				f.Vars = append(f.Vars, v)
 			}
@@ -333,7 +369,7 @@ func gen(r *rand.Rand, i int, tier string) Case {
 				f.SetAll, f.Set = true, nil
 			}
 		}
-		if r.IntN(7) == 0 {
+		if r.IntN(4) == 0 {
 			if r.IntN(3) == 0 || len(f.Vars) == 0 {
 				f.IniAll = true
 			} else {
